@@ -35,6 +35,7 @@ def main(argv=None):
             s.setdefault('nshards', len(specs))
     timeout = getattr(mod, 'SHARD_TIMEOUT', {'quick': 900, 'thorough': 7200})[a.tier]
     results = harness.run_shards(pid, specs, timeout)
+    slow = sorted(((round(r['wall'], 1), r['idx'], specs[r['idx']].get('kind')) for r in results), reverse=True)[:3]
     m = harness.merge(results)
 
     # ---- verdict ------------------------------------------------------
@@ -75,6 +76,7 @@ def main(argv=None):
         'observed_distinct': {k: len(v) for k, v in sorted(m['sets'].items())},
         'observed_values': {k: sorted(v)[:120] for k, v in sorted(m['sets'].items()) if len(v) <= 120},
         'shards': len(specs),
+        'slowest_shards_wall_s_index_kind': [list(x) for x in slow],
         'known_findings_seen': {k: int(v) for k, v in sorted(m['known'].items())},
         'unknown_violation_kinds': dict(m['violation_counts']),
         'verdict': 'violated' if n_unknown else ('inconclusive' if inconclusive else 'held on what was observed'),
